@@ -54,6 +54,9 @@ var Profiles = map[string]Profile{
 	"convert": {Types: []string{"T1", "T2", "T3", "T4"}, Ifaces: []string{"I1", "I2"}, Names: []string{"", "", "a", "b"}, Subs: []string{"", "", "s"},
 		MaxIn: 2, MaxOut: 2, MaxTIn: 1, MaxInputs: 3, MaxConvs: 4, Forms: []string{"pos", "struct", "ptr", "built"}, FailProb: 0.1, OnceProb: 0.1,
 		MultiMax: -1, Modes: []string{"convert"}},
+	"convcall": {Types: []string{"T1", "T2", "T3", "T4"}, Ifaces: []string{"I1", "I2"}, Names: []string{"", "", "a", "b"}, Subs: []string{"", "", "s"},
+		MaxIn: 2, MaxOut: 2, MaxTIn: 1, MaxInputs: 3, MaxConvs: 4, Forms: []string{"pos", "struct", "ptr", "built"}, FailProb: 0.1, OnceProb: 0.1,
+		MultiMax: -1, Modes: []string{"convcall"}},
 	"wild": {Types: []string{"T1", "T2", "T3", "T4", "T5", "U1"}, Ifaces: []string{"I1", "I2"}, Names: []string{"", "", "a", "b", "c"}, Subs: []string{"", "", "s", "t"},
 		MaxIn: 3, MaxOut: 3, MaxTIn: 3, MaxInputs: 4, MaxConvs: 5, Forms: []string{"pos", "struct", "ptr", "built"}, FailProb: 0.1, OnceProb: 0.2,
 		MultiMax: -1, Modes: []string{"call", "call", "convert", "redefine"}, GenProb: 0.15, DefProb: 0.2, BadProb: 0.1, DupInputs: true, TargetOuts: 2},
@@ -159,7 +162,7 @@ func (p Profile) Random(r *rand.Rand, sid int) Scenario {
 		s.Target = p.fn(r, tin, p.TargetOuts, true)
 		s.Target.Once = false
 		s.Target.NilOut = false
-		if s.Mode == "convert" {
+		if s.Mode == "convert" || s.Mode == "convcall" {
 			l := Label{Type: pick(r, append(append([]string{}, p.Types...), p.Ifaces...))}
 			s.Target = FuncSpec{In: []Label{l}, Out: []Label{l}, Form: "pos"}
 		}
